@@ -256,13 +256,18 @@ Fixpoint incremental_ok (c : case) (rds : list round) (os : list robs) (sts : li
   end.
 
 (* (5) resume: the failed run followed by a clean run ends in the same bugs as the run that never failed *)
-Definition canon (ops : list op) (o : op) : op :=
+(* the operations compared up to what depends on the order of insertion: edits are replaced by their effect (the final
+   text of each comment), a title change does not say which title it replaced *)
+Definition canon_at (ops : list op) (p : nat) (o : op) : list op :=
   match o_k o with
-  | OEdit p m => mkop (o_gid o) (o_author o) (o_time o)
-                      (OEdit (match nth_error ops p with Some x => match o_gid x with Some g => S (N.to_nat g) | None => 0 end | None => 0 end) m)
-  | OTitle t _ => mkop (o_gid o) (o_author o) (o_time o) (OTitle t [])   (* the recorded previous title depends on the order *)
-  | _ => o
+  | OEdit _ _ => []
+  | OCreate t m => [mkop (o_gid o) (o_author o) (o_time o) (OCreate t (last_edit p ops m))]
+  | OComment m => [mkop (o_gid o) (o_author o) (o_time o) (OComment (last_edit p ops m))]
+  | OTitle t _ => [mkop (o_gid o) (o_author o) (o_time o) (OTitle t [])]
+  | _ => [o]
   end.
+Definition canon_ops (ops : list op) : list op :=
+  flat_map (fun x => canon_at ops (fst x) (snd x)) (combine (seq 0 (length ops)) ops).
 Definition status_of (ops : list op) : bool :=
   fold_left (fun acc o => match o_k o with OStatus x => x | _ => acc end) ops false.
 Definition labels_now (ops : list op) : list text :=
@@ -274,7 +279,7 @@ Definition same_events (a b : istate) : bool :=
   set_eqb N.eqb (fst a) (fst b) &&
   Nat.eqb (length (snd a)) (length (snd b)) &&
   forallb (fun x => match find_bug (b_iid x) (snd b) with
-                    | Some y => bag_eqb op_eqb (map (canon (b_ops x)) (b_ops x)) (map (canon (b_ops y)) (b_ops y))
+                    | Some y => bag_eqb op_eqb (canon_ops (b_ops x)) (canon_ops (b_ops y))
                     | None => false end) (snd a).
 Definition same_view (a b : istate) : bool :=
   forallb (fun x => match find_bug (b_iid x) (snd b) with
